@@ -405,7 +405,7 @@ impl Driver {
         let ev = json!({"ev":"reset","run":self.job.run,"tag":self.job.tag,
             "cfg":{"base":c.base,"ppm":c.ppm,"pdelta":c.pdelta,"sdelta":c.sdelta,"mpp":c.mpp,
                    "selfhints":c.selfhints,"h0":c.h0,"retry": c.paytimeout.min(65535), "xpay": c.xpay},
-            "invs": self.job.scen.invs.iter().map(|i| json!({"hash":i.hash,"amt":i.amt,"hint": if i.hops.is_empty() { i.hint } else { i.hops.split(',').any(|h| h.ends_with('L')) },"payee":format!("p{}",i.payee),"form":i.form})).collect::<Vec<_>>()});
+            "invs": self.job.scen.invs.iter().map(|i| json!({"hash":i.hash,"amt":i.amt,"hint": if i.hops.is_empty() { i.hint } else { i.hops.split(',').any(|h| h.ends_with('L')) },"payee":format!("p{}",i.payee),"form":i.form,"zero":i.zero})).collect::<Vec<_>>()});
         self.line(ev);
     }
 
